@@ -107,17 +107,101 @@ def generate(tier, seed):
                                                             for dd in (None, "d1", "d2") for _ in range(6)]
         qs12 += [("R", n, d) for n in names12[:6]] + [("U", n, d) for n in names12[:6]]
         cases.append(case(rnd.choice([10, 10, 10, 9, 11, 5]), ops, qs12))
+    mdist = gen_rmm(tier, rnd, cases)
     return {
         "cases": cases,
         "exhaustive": False,
-        "rule": ("every history of add_link/delete_link/clear of length <= %d over 3 names (self-pairs included) x {None,d1,d2} "
+        "rule": ("[matching functions] role-manager histories with RoleManager::matching_fn installed (key_match / key_match2 / key_match3 / a symmetric "
+                 "harness-defined function; role and domain patterns): exhaustive histories of <= 2 link operations after the installation over pattern-bearing "
+                 "name sets, seeded random add-only 'pattern histories' (checked against the declarative pattern-reachability spec) and random histories with "
+                 "deletes, clears and re-installations (model = implementation only). [plain] ""every history of add_link/delete_link/clear of length <= %d over 3 names (self-pairs included) x {None,d1,d2} "
                  "(%d histories; the longest ones with hierarchy limits 10,1,2,3 in rotation), each followed by all has_link/get_roles/get_users "
                  "queries over those names plus an unknown name; %d random link sets over 4 names with limits 0..4; %d seeded random histories "
                  "over 12 names containing a chain of 7..11 links (limit 5/9/10/11). non-trivial = history with at least one link present at the end"
                  % (L, n_ex, n_sets, n_rand)),
-        "distribution": {"exhaustive_histories": n_ex, "linkset_cases": n_sets, "random_histories": n_rand,
+        "distribution": {"matching": mdist, "exhaustive_histories": n_ex, "linkset_cases": n_sets, "random_histories": n_rand,
                          "random_chain_lengths": dist["chain_len"], "random_history_lengths_by_10": dist["hist_len"]},
     }
+
+
+MNAMES = {
+    "km": ["alice", "bob", "*", "b*", "book_group", "pen_group"],
+    "km2": ["/b/1", "/b/:id", "/p/1", "/p/:x", "alice", "grp"],
+    "km3": ["/b/1", "/b/{id}", "/p/1", "/p/{x}", "alice", "grp"],
+    "fe": ["a1", "a2", "b1", "b2", "c"],
+}
+MDOMS = [None, "d1", "d2", "*", "d*"]
+
+
+def mop_str(o):
+    if o[0] == "F":
+        return "F,%s,%s" % (o[1] or "-", o[2] or "-")
+    return op_str(o)
+
+
+def mcase(maxd, ops, qs):
+    return "rmm %d %s %s" % (maxd, "|".join(mop_str(o) for o in ops) if ops else "-", "|".join(q_str(q) for q in qs))
+
+
+def gen_rmm(tier, rnd, cases):
+    dist = {"exhaustive": 0, "pattern_histories": 0, "general": 0, "by_fn": {}, "with_domain_fn": 0, "with_deletes": 0}
+    # exhaustive: install, then every history of <= 2 link operations over 3 pattern-bearing names
+    for fid, names in MNAMES.items():
+        n3 = names[:3] if fid != "km2" and fid != "km3" else names[:2] + [names[4]]
+        al = [("C",)] + [(k, a, b, None) for k in "AD" for a in n3 for b in n3 if a != b]
+        qs = all_queries(n3 + ["zz"], [None])
+        for k in (1, 2):
+            for h in itertools.product(al, repeat=k):
+                cases.append(mcase(10, [("F", fid, None)] + list(h), qs))
+                dist["exhaustive"] += 1
+    # pattern histories: install first, then adds (and a rare clear); checked against the declarative spec
+    n_pat = 300 if tier == "quick" else 6000
+    for i in range(n_pat):
+        fid = rnd.choice(list(MNAMES))
+        names = MNAMES[fid]
+        dist["by_fn"][fid] = dist["by_fn"].get(fid, 0) + 1
+        d = rnd.choice([None, None, "d1"])
+        ops = [("F", fid, None)]
+        for _ in range(rnd.randint(1, 7)):
+            if rnd.random() < 0.04:
+                ops.append(("C",))
+            else:
+                ops.append(("A", rnd.choice(names), rnd.choice(names), d))
+        qs = all_queries(names + ["zz", "/b/9"], [d])
+        cases.append(mcase(rnd.choice([10, 10, 1, 2, 3]), ops, qs))
+        dist["pattern_histories"] += 1
+    # general histories: installation anywhere / repeated, role and domain functions, deletes, clears
+    n_gen = 300 if tier == "quick" else 6000
+    for i in range(n_gen):
+        fid = rnd.choice(list(MNAMES))
+        names = MNAMES[fid]
+        dfn = rnd.choice([None, None, "km"])
+        rfn = rnd.choice([fid, fid, fid, None])
+        doms = MDOMS if dfn else [None, "d1"]
+        ops = []
+        if rnd.random() < 0.8:
+            ops.append(("F", rfn, dfn))
+        nd = 0
+        for _ in range(rnd.randint(1, 10)):
+            r = rnd.random()
+            if r < 0.6:
+                ops.append(("A", rnd.choice(names), rnd.choice(names), rnd.choice(doms)))
+            elif r < 0.88:
+                ops.append(("D", rnd.choice(names), rnd.choice(names), rnd.choice(doms)))
+                nd += 1
+            elif r < 0.93:
+                ops.append(("C",))
+            else:
+                ops.append(("F", rnd.choice([fid, None]), rnd.choice([None, "km"])))
+        if dfn:
+            dist["with_domain_fn"] += 1
+        if nd:
+            dist["with_deletes"] += 1
+        qd = [rnd.choice(doms), rnd.choice(doms + ["d9"])]
+        qs = all_queries(names[:4] + ["zz"], qd)
+        cases.append(mcase(rnd.choice([10, 10, 1, 2, 3]), ops, qs))
+        dist["general"] += 1
+    return dist
 
 
 def nontrivial(case_line, model_out):
